@@ -77,6 +77,68 @@ fn g_type(src: &mut Src, obs: &mut Obs) -> CaseResult {
     check_type(t, &model, obs, &ti)
 }
 
+/// every Unicode scalar value inside rp / user names (<= 64 bytes: lossless), both directions.
+/// words: [scalar (raw), shape]
+fn g_scalar(src: &mut Src, obs: &mut Obs) -> CaseResult {
+    use refcbor::Value;
+    let cp = src.word();
+    let shape = src.below(3);
+    let Some(c) = char::from_u32(cp) else {
+        obs.excluded = true;
+        return Ok(());
+    };
+    let name = match shape {
+        0 => format!("A{}", c),
+        1 => format!("{}{}z", c, c),
+        _ => format!("name {} end", c),
+    };
+    obs.label("scalar-sweep");
+    let (t, model) = if cp % 2 == 0 {
+        (T::Rp, Value::Map(vec![(Value::text("id"), Value::text("example.org")), (Value::text("name"), Value::text(&name))]))
+    } else {
+        (
+            T::User,
+            Value::Map(vec![
+                (Value::text("id"), Value::Bytes(vec![1, 2])),
+                (Value::text("name"), Value::text(&name)),
+                (Value::text("displayName"), Value::text(&name)),
+                (Value::text("icon"), Value::text(&name)),
+            ]),
+        )
+    };
+    check_type(t, &model, obs, &TInfo::default())
+}
+
+/// every small value of every unsigned integer member of the bidirectional types (values that
+/// code may special-case: 0, 1, sizes, defaults ...). words: [member selector, value (raw)]
+fn g_uint(src: &mut Src, obs: &mut Obs) -> CaseResult {
+    use refcbor::Value;
+    let sel = src.word() as usize;
+    let val = src.word() as u64;
+    let ki = |k: i64, v: Value| (Value::int(k), v);
+    // GetInfo usize members
+    let uints: Vec<i64> = rs::getinfo_optional().iter().filter(|(_, k)| *k == rs::GiKind::Uint).map(|(k, _)| *k).collect();
+    let n_gi = uints.len();
+    obs.label("uint-sweep");
+    let (t, model) = if sel % (n_gi + 6) < n_gi {
+        let key = uints[sel % (n_gi + 6)];
+        (T::GetInfo, Value::Map(vec![ki(1, Value::Array(vec![Value::text("FIDO_2_1")])), ki(3, Value::Bytes(vec![0; 16])), ki(key, Value::Uint(val))]))
+    } else {
+        match sel % (n_gi + 6) - n_gi {
+            0 => (T::CpResponse, Value::Map(vec![ki(3, Value::Uint(val % 256))])),
+            1 => (T::CpResponse, Value::Map(vec![ki(5, Value::Uint(val % 256))])),
+            2 => (T::LbRequest, Value::Map(vec![ki(1, Value::Uint(val)), ki(3, Value::Uint(val / 2))])),
+            3 => (T::LbRequest, Value::Map(vec![ki(3, Value::Uint(val)), ki(4, Value::Uint(val)), ki(6, Value::Uint(val % 7))])),
+            4 => (T::CmRequest, Value::Map(vec![ki(1, Value::Uint(1 + val % 7)), ki(3, Value::Uint(val % 256))])),
+            _ => (T::CpRequest, Value::Map(vec![ki(1, Value::Uint(val % 256)), ki(2, Value::Uint([1u64, 2, 3, 4, 5, 6, 7, 9][(val % 8) as usize])), ki(9, Value::Uint((val / 8) % 256))])),
+        }
+    };
+    check_type(t, &model, obs, &TInfo::default())
+}
+
+pub const G_SCALAR: Gen = Gen { name: "c15_scalar", f: g_scalar };
+pub const G_UINT: Gen = Gen { name: "c15_uint", f: g_uint };
+
 fn g_concrete(src: &mut Src, obs: &mut Obs) -> CaseResult {
     let p = crate::run::unpack_bytes(src);
     obs.label("concrete");
@@ -95,7 +157,7 @@ pub const G_TYPE: Gen = Gen { name: "c15_type", f: g_type };
 pub const G_CONCRETE: Gen = Gen { name: "c15_concrete", f: g_concrete };
 
 pub fn gens() -> Vec<Gen> {
-    vec![G_TYPE, G_CONCRETE]
+    vec![G_TYPE, G_CONCRETE, G_SCALAR, G_UINT]
 }
 
 pub const RULE: &str = "Every bidirectional type (ClientPin / CredentialManagement / LargeBlobs requests and sub-command parameters, GetInfo / ClientPin / LargeBlobs responses, hmac-secret input, authenticator options, the three extension maps, rp / user entities, owned and borrowed descriptors, parameters and the filtered parameter list, CtapOptions, Certifications, unsigned extension outputs, COSE keys, and the enumerations Version, Extension, Transport, AttestationStatementFormat, PinV1Subcommand, Subcommand, CredentialProtectionPolicy). Models are reference-CBOR values in the lossless sub-domain (names <= 64, icon <= 128, known algorithms, rp icon absent, COSE alg present, LargeBlobs config within the configuration's capacity); every subset of optional members (<= 8) or none/singletons/pairs/full is enumerated, values by proptest (lattice + random). Oracle: (i) for a value built through the public API, cbor_deserialize(cbor_serialize(v)) == v; (ii) for b = canonical reference encoding of the model, cbor_serialize(cbor_deserialize(b)) == b byte for byte (and decoding the re-encoding gives an equal value). No key table is consulted: the check fails exactly when the two directions disagree. Non-trivial: >= 1 optional member set and >= 1 unset, >= 2 members, or an encoding longer than one byte; evaluations count directions.";
@@ -120,9 +182,30 @@ pub fn run(ctx: &mut Ctx) {
         ctx.random(&G_TYPE, &[idx(i, types::ALL.len())], ctx.t(300, 20_000), 700);
         ctx.exhaustive.push(format!("{}: {} presence prefixes", t.name(), subs.len()));
     }
+    // every Unicode scalar inside entity names (quick: every 5th scalar, shape rotating)
+    let step = ctx.t(5usize, 1);
+    ctx.enumerate(
+        &G_SCALAR,
+        (0u32..0x11_0000).step_by(step).filter(|c| !(0xD800..0xE000).contains(c)).map(|c| vec![c, idx((c % 3) as usize, 3)]),
+    );
+    // every value 0..=4200 (and powers of two +-1 up to 2^32) through every unsigned member
+    let n_members = rs::getinfo_optional().iter().filter(|(_, k)| *k == rs::GiKind::Uint).count() + 6;
+    let mut vals: Vec<u32> = (0..=4200u32).collect();
+    for b in 13..32 {
+        vals.extend_from_slice(&[(1u32 << b) - 1, 1u32 << b, (1u32 << b) + 1]);
+    }
+    vals.push(u32::MAX);
+    let vstep = ctx.t(3usize, 1);
+    for m in 0..n_members {
+        let vs: Vec<Vec<u32>> = vals.iter().skip(m % vstep).step_by(vstep).map(|v| vec![m as u32, *v]).collect();
+        ctx.enumerate(&G_UINT, vs.into_iter());
+    }
+    ctx.exhaustive.push("every Unicode scalar (quick: every 5th) inside rp/user names; every value 0..=4200 and 2^k-1,2^k,2^k+1 through every unsigned member (quick: every 3rd value)".into());
     let mut req: Vec<String> = types::ALL.iter().filter(|t| t.available() && t.bidirectional()).map(|t| format!("type:{}", t.name())).collect();
     req.push("direction:encode-then-decode".into());
     req.push("direction:decode-then-encode".into());
+    req.push("scalar-sweep".into());
+    req.push("uint-sweep".into());
     let r: Vec<&str> = req.iter().map(|s| s.as_str()).collect();
     ctx.require(&r);
 }
